@@ -307,6 +307,7 @@ func main() {
 			break
 		}
 		model := map[id][]byte{}
+		lastVAA := map[id]*vaa.VAA{}
 		// focus the universe of this store so that streams collide in interesting ways
 		ecs := []uint16{chains[rng.Intn(len(chains))], chains[rng.Intn(len(chains))], 1}
 		tcs := []uint16{chains[rng.Intn(len(chains))], chains[rng.Intn(len(chains))], chains[rng.Intn(len(chains))]}
@@ -328,6 +329,21 @@ func main() {
 				i.Seq = uint64(rng.Intn(41))
 			}
 			v := mkVAA(rng, i)
+			if prev, ok := lastVAA[i]; ok && rng.Intn(2) == 0 {
+				// an overwrite with the same body and another signature set (a peer's copy with more, fewer or other
+				// guardians' signatures): the identifier must afterwards return these bytes, not the earlier ones
+				c := *prev
+				c.GuardianSetIndex = prev.GuardianSetIndex + uint32(rng.Intn(2))
+				c.Signatures = nil
+				for k, ns := 0, 1+rng.Intn(5); k < ns; k++ {
+					sg := &vaa.Signature{Index: uint8(k)}
+					rng.Read(sg.Signature[:])
+					c.Signatures = append(c.Signatures, sg)
+				}
+				v = &c
+				r.Count("overwrites_same_body_other_signatures", 1)
+			}
+			lastVAA[i] = v
 			if err := d.StoreSignedVAA(v); err != nil {
 				r.Violation("store:error", map[string]interface{}{"id": i.String(), "err": err.Error()})
 				continue
